@@ -39,8 +39,8 @@ COMPONENTS = {
 ASSUMPTIONS = [
     "mitmproxy's core is reduced to request hook -> wait -> (origin) -> responseheaders -> response hook -> wait",
     "a flow taken by an addon that never resumes it is the addon's to keep: no hand-back is required",
-    "hand-back latency is judged in virtual time: within 5 ms of the event becoming visible on the queue "
-    "(both sides poll every 1 ms)",
+    "hand-back latency is judged in virtual time: within 100 ms (plus the injected queue latency) of the event "
+    "being queued - generous against the 1 ms polling of both sides, so other polling granularities do not alarm",
 ]
 
 REQ_BEH = ["ignore", "ignore", "ignore", "meta", "rewrite_url", "inject", "take_resume_later", "take_resume_now",
@@ -516,7 +516,7 @@ def run_plan(plan: dict) -> RunResult:
                         if c["pump"] is None:
                             violate("C15/handoff/callback-outside-pump", tag=tag, event=e["type"])
                             break
-                        if c["t"] - e["t"] > cfg["queue_latency"] + 0.005:
+                        if c["t"] - e["t"] > cfg["queue_latency"] + 0.1:
                             violate("C15/handoff/late", tag=tag, event=e["type"], queued=e["t"], callback=c["t"])
                             break
                 if stopped:
